@@ -148,13 +148,16 @@ class CategoricalCalibration(keras.layers.Layer):
     self.output_min = output_min
     self.output_max = output_max
     self.monotonicities = monotonicities
-    if output_min is not None and output_max is not None:
+    if output_min is not None or output_max is not None:
+      # With a single bound initialize within unit distance from it.
+      init_min = output_min if output_min is not None else output_max - 1.0
+      init_max = output_max if output_max is not None else output_min + 1.0
       if kernel_initializer == "constant":
         kernel_initializer = keras.initializers.Constant(
-            (output_min + output_max) / 2)
+            (init_min + init_max) / 2)
       elif kernel_initializer == "uniform":
         kernel_initializer = keras.initializers.RandomUniform(
-            output_min, output_max)
+            init_min, init_max)
     self.kernel_initializer = keras.initializers.get(kernel_initializer)
     self.kernel_regularizer = []
     if kernel_regularizer:
